@@ -1,7 +1,7 @@
 (* C12 - Request-head limits are enforced and parser buffering is bounded.
    Only statements, each closed by [exact]. *)
 From Coq Require Import List NArith ZArith Bool.
-From GV Require Import Base.Bytes Base.Scan Base.PyStr Gen.GenParser Model.Parser Proof.ParserHead Proof.Limits.
+From GV Require Import Base.Bytes Base.Scan Base.PyStr Gen.GenParser Model.Parser Proof.ParserHead Proof.Limits Proof.LimitsCompose.
 Import ListNotations.
 Local Open Scope N_scope.
 
@@ -49,6 +49,24 @@ Theorem C12_endless_header_block_rejected : forall c rbuf p,
     canonH (header_stage c rbuf p) = inr ELimitRequestHeaders.
 Proof. exact endless_header_block_rejected. Qed.
 Print Assumptions C12_endless_header_block_rejected.
+
+(* -- the three size tests composed: a block whose fields respect limit_request_fields and limit_request_field_size
+      (> 0) also fits the cap on the block as a whole, so it is refused for size nowhere in the header stage.
+      (limit_request_field_size = 0, "unlimited", switches off the per-field test only: the block stays bounded by the
+      cap computed with the default field size - DESIGN.md 13.2 - and a block beyond it is refused.) -- *)
+Theorem C12_fields_within_limits_fit_the_block_cap : forall c block,
+    0 < eff_field_size c ->
+    within_limits c (S (length (split_crlf block))) (split_crlf block) 0 = true ->
+    N.of_nat (length block + 4) <= max_buffer_headers c.
+Proof. exact within_limits_block_fits. Qed.
+Print Assumptions C12_fields_within_limits_fit_the_block_cap.
+Theorem C12_request_within_limits_not_rejected_for_size : forall c rbuf p i,
+    0 < eff_field_size c ->
+    prefixb CRLF (rbuf ++ concat p) = false -> find_pat CRLFCRLF (rbuf ++ concat p) = Some i ->
+    within_limits c (S (length (split_crlf (firstn i (rbuf ++ concat p))))) (split_crlf (firstn i (rbuf ++ concat p))) 0 = true ->
+    canonH (header_stage c rbuf p) <> inr ELimitRequestHeaders.
+Proof. exact header_block_within_limits_not_rejected. Qed.
+Print Assumptions C12_request_within_limits_not_rejected_for_size.
 
 (* -- bounded buffering: whatever the client sends in reads of at most M bytes, each refill loop
       (request line, header block / trailer block, chunk-size line) never holds more than its cap + M -- *)
